@@ -266,14 +266,11 @@ def native_call(ctx, fam, inst, Ic):
 
 def eval_spec_concrete(fam, inst, Ic, O):
     failed = []
-    try:
-        for label, c in fam.spec(inst, Ic, O):
-            if not isinstance(c, (bool,)):
-                c = bool(c)
-            if not c:
-                failed.append(label)
-    except Exception as e:  # an oracle that cannot be evaluated on native output (e.g. missing buffer)
-        failed.append('oracle-error:%s' % e)
+    for label, c in fam.spec(inst, Ic, O):
+        if z3.is_expr(c):
+            raise RuntimeError('concrete oracle produced a symbolic condition for %s' % label)
+        if not bool(c):
+            failed.append(label)
     return failed
 
 
@@ -403,8 +400,24 @@ def block_model(I, m):
     return z3.Or(*lits) if lits else z3.BoolVal(False)
 
 
+def specialize(v, sub):
+    """replace input variables pinned by the path condition (var == numeral) by python numbers"""
+    if isinstance(v, dict):
+        return {k: specialize(x, sub) for k, x in v.items()}
+    if isinstance(v, (list, tuple)):
+        return [specialize(x, sub) for x in v]
+    if z3.is_expr(v) and z3.is_const(v) and v.get_id() in sub:
+        return sub[v.get_id()]
+    return v
+
+
 def check_path(ctx, ex, fam, inst, path, I, O, res, known_active, confirmed_known, tier):
     """discharge this path's obligations; replay candidates; classify known / violation / non-reproducing"""
+    I_full = I
+    if path.subst:
+        sub = {a.get_id(): b.as_long() for a, b in path.subst if z3.is_int_value(b)}
+        if sub:
+            I = specialize(I, sub)
     groups = []   # (key, label, negated-assertion condition)
     if fam.memory:
         seen = set()
@@ -481,8 +494,8 @@ def check_path(ctx, ex, fam, inst, path, I, O, res, known_active, confirmed_know
             if r == 'unknown':
                 res['inconclusive'].append({'reason': 'solver-unknown', 'label': label})
                 break
-            m = nicer_model(ex, path, [] if c is True else [c], I, m)
-            Ic = concretize(I, m)
+            m = nicer_model(ex, path, [] if c is True else [c], I_full, m)
+            Ic = concretize(I_full, m)
             nres, On, text = fam.native(ctx, inst, Ic)
             if fam.memory:
                 confirmed = nres['status'] in ('sanitizer', 'signal')
@@ -527,7 +540,7 @@ def check_path(ctx, ex, fam, inst, path, I, O, res, known_active, confirmed_know
                 res['nonrepro'] += 1
                 res['inconclusive'].append({'reason': 'non-reproducing', 'label': label, 'inputs': jsonable(Ic)})
                 break
-            extra_block.append(block_model(I, m))
+            extra_block.append(block_model(I_full, m))
 
 
 def validate_path(ctx, ex, fam, inst, path, I, res, srcfile):
